@@ -36,6 +36,11 @@ def main():
             subprocess.run("git checkout -q -- . && git clean -fdq", shell=True, cwd=WT)
             r = subprocess.run(["git", "apply", os.path.join(d, "patch.diff")], cwd=WT, capture_output=True, text=True)
             if r.returncode != 0:
+                # /repo moved on (later fix: commits): fall back to a 3-way merge of the seeded change
+                subprocess.run("git checkout -q -- . && git clean -fdq", shell=True, cwd=WT)
+                r = subprocess.run(["git", "apply", "--3way", os.path.join(d, "patch.diff")], cwd=WT, capture_output=True, text=True)
+                subprocess.run("git reset -q", shell=True, cwd=WT)
+            if r.returncode != 0:
                 res = dict(applied=False, error=r.stderr[-300:])
             else:
                 props = meta.get("also_check", []) + [prop]
